@@ -141,3 +141,17 @@ def local_epoch(t0_text, tz_name='UTC'):
             break
         guess = new
     return guess
+
+
+def num_arg(value, variant=0):
+    """Text of a numeric command-line argument, in one of the forms a user may
+    type: shortest repr, integer when whole, exponent notation, padded zeros"""
+    v = float(value)
+    variant = variant % 4
+    if variant == 1 and v.is_integer() and abs(v) < 1e15:
+        return str(int(v))
+    if variant == 2:
+        return '{:.17e}'.format(v)
+    if variant == 3 and v == float('{:.6f}'.format(v)):
+        return '{:.6f}'.format(v)
+    return repr(v)
